@@ -380,7 +380,14 @@ Definition w_key_clobbers := ([D 0; Mk PKey; D 1], [AInt 1%Z; AKw 0; AInt 5%Z]).
 Definition w_dup_key := ([Mk PKey; D 1], [AKw 1; AInt 1%Z; AKw 1; AInt 2%Z]).
 Definition w_rest_key := ([Mk PRest; D 0; Mk PKey; D 1], [AKw 1; AInt 1%Z]).
 Definition w_missing_value := ([Mk PKey; D 1], [AKw 1]).
-Definition witnesses := [w_too_few; w_unknown_key; w_key_clobbers; w_dup_key; w_rest_key; w_missing_value].
+(* (defun f (&rest r &aux (x 5)) ...) called as (f :x 1): the rest list stops at :x because x names a later
+   (auxiliary) parameter; r is nil instead of (:x 1) *)
+Definition w_rest_aux := ([Mk PRest; D 0; Mk PAux; {| d_name := PVar 1; d_def := Some 5%Z |}], [AKw 1; AInt 1%Z]).
+Definition witnesses := [w_too_few; w_unknown_key; w_key_clobbers; w_dup_key; w_rest_key; w_missing_value; w_rest_aux].
+Lemma rest_aux_witness :
+  bind_M (fst w_rest_aux) (snd w_rest_aux) = OBound [(0, VNil); (1, VInt 5)] /\
+  spec_of (fst w_rest_aux) (snd w_rest_aux) = Some (OBound [(0, VList [AKw 1; AInt 1%Z]); (1, VInt 5)]).
+Proof. split; vm_compute; reflexivity. Qed.
 Lemma outside_guard_refuted : forallb (fun w => refuted (fst w) (snd w)) witnesses = true.
 Proof. vm_compute. reflexivity. Qed.
 
